@@ -12,6 +12,12 @@ CLAIMS = {
   "text": "Decides the table clause and the sibling clauses: every entry of UNITS, DISTRIBUTIVE_OPS, BINARY_INVERSES, SAFE_BINARY_INVERSES, UNARY_INVERSES, PRODUCT_TO_POWER, REDUCE_OP_TO_NUMERIC and the einsum backend tables - read wherever it is written - is a theorem of the abstract operation its op resolves to (neutral element by value and boolean-ness, distributivity with carrier, inverse, power, fold, backend semiring); (scalar, array)/(array, scalar) registrations of commutative ops are mirror images; library functions registered for an op are its counterpart (found np.amax registered for amin on the jax backend). Exhaustive over the finite set of entries/registrations. NOT decided: the numerical clauses (scalar vs 0-d vs array values, exact limits at -inf/overflow, NaN-freeness of safe ops) - these quantify over floating-point values.",
   "note": "Trusts funsorlint/axioms.py (textbook facts) and the documented meaning of operator.*/math.*/numpy reductions. Ops whose identity cannot be resolved make their entries 'unresolved' (reported, never failed).",
  },
+ "C20": {
+  "design_ref": "DESIGN.md section 4, C20 (R20.1-R20.6)",
+  "technique": "static ownership/effect analysis: flow-sensitive forward abstract interpretation of every function over an origin lattice (fresh / parameter / field / view / element / global / term / frozen), interprocedural summaries (mutates-parameter, returns-fresh/parameter/view) to a fixpoint over resolved calls",
+  "text": "Decides for all ~770 mutation sites of the package (item/attribute stores and deletes, augmented assignments, mutating container/array methods, numpy/torch in-place API, out=, setattr) that none writes through a reference that can only be a term's constructor field (45 fields computed from every Funsor subclass __init__), a term, an operand of an array kernel (op implementations, einsum backends) or a value already handed to a term; that constructor fields are stored only during construction; that callers pass fresh objects in positions a callee (transitively) mutates. A dropped .copy(), a write into x.data / x.inputs, an in-place clamp of a view of an operand, mutation after super().__init__ are reported at the write with the origin chain. Covers every function on every syntactic path, including torch/jax/pyro modules the suite never runs.",
+  "note": "Library semantics (which numpy/torch calls allocate, which return views) are a trusted table; unknown origins (elements of locally built containers of containers, closure variables, dynamic callees) are reported as unresolved and never failed; a write that is borrowed on one branch and fresh on another is reported only when the borrowed origin is array-kind.",
+ },
 }
 
 NOT_APPLICABLE = {
@@ -33,5 +39,4 @@ NOT_APPLICABLE = {
  "C11": "check not implemented yet in this snapshot (planned: R11.1-R11.5)",
  "C16": "check not implemented yet in this snapshot (planned: R16.1-R16.5)",
  "C18": "check not implemented yet in this snapshot (planned: R18.1-R18.6)",
- "C20": "check not implemented yet in this snapshot (planned: R20.1-R20.6)",
 }
